@@ -771,3 +771,77 @@ package queue
 //@   ensures [C14:every_selected_allowed_message_changed] forall j int :: 0 <= j && j < len(req.IDs) && trim(req.IDs[j]) != "" && trim(req.IDs[j]) in s.items && old(s.items[trim(req.IDs[j])].State == StateCanceled) ==> s.items[trim(req.IDs[j])].State == StateQueued
 //@   ensures [C14:count_equals_changes] result0.Resumed == card(setof(k string :: k in s.items && s.items[k].State != old(s.items[k].State))) && result0.Matched == result0.Resumed
 //@   ensures [no_error] result1 == nil
+
+// ---- C04: batched lease mutations (one loop iteration per lease id, each fenced like the single operation) ----
+
+//@ func (*MemoryStore).AckBatch
+//@   requires s != nil
+//@   modifies s.leases, s.items, Envelope.State, Envelope.LeaseID, Envelope.LeaseUntil, Envelope.NextRunAt, Envelope.DeadReason, storeNow
+//@   loop 1 invariant [wf_J0] J0(s)
+//@   loop 1 invariant [wf_J1] J1(s)
+//@   loop 1 invariant [wf_J2] J2(s)
+//@   loop 1 invariant [wf_J3a] J3a(s)
+//@   loop 1 invariant [wf_J3b] J3b(s)
+//@   loop 1 invariant [wf_J4] J4(s)
+//@   loop 1 invariant [wf_J5] J5(s)
+//@   loop 1 invariant [wf_J6] J6(s)
+//@   loop 1 invariant [wf_J7] J7(s)
+//@   loop 1 invariant [accounted] rangeindex < len(leaseIDs) && res.Succeeded >= 0 && res.Succeeded + len(res.Conflicts) == rangeindex + 1
+//@   loop 1 invariant [no_creation] forall id string :: id in s.items ==> old(id in s.items) && s.items[id] == old(s.items[id])
+//@   loop 1 invariant [each_message] forall id string :: id in s.items ==> let e := s.items[id] :: same(e) || (old(e.State == StateLeased) && idSelected(leaseIDs, old(e.LeaseID)) && ((old(expiredAt(e, now)) && released(e, now)) || (!old(expiredAt(e, now)) && s.deliveredRetentionMaxAge > 0 && settled(e, StateDelivered, now, ""))))
+//@   loop 1 invariant [leases_only_shrink] forall l string :: l in s.leases ==> old(l in s.leases) && s.leases[l] == old(s.leases[l])
+//@   loop 1 invariant [dropped_leases_were_named] forall l string :: old(l in s.leases) && !(l in s.leases) ==> idSelected(leaseIDs, l)
+//@   loop 1 invariant [removed_were_live_named_acks] forall id string :: old(id in s.items) && !(id in s.items) ==> s.deliveredRetentionMaxAge <= 0 && old(s.items[id].State == StateLeased) && idSelected(leaseIDs, old(s.items[id].LeaseID)) && !old(expiredAt(s.items[id], now))
+//@   ensures [C04:removed_only_by_a_named_live_ack] let now := storeNow :: forall id string :: old(id in s.items) && !(id in s.items) ==> s.deliveredRetentionMaxAge <= 0 && old(s.items[id].State == StateLeased) && idSelected(leaseIDs, old(s.items[id].LeaseID)) && !old(expiredAt(s.items[id], now))
+//@   ensures [C04:every_lease_id_accounted_for] result1 == nil && result0.Succeeded + len(result0.Conflicts) == len(leaseIDs)
+//@   ensures [C04:only_named_live_leases_settle_expired_ones_are_released] let now := storeNow :: forall id string :: id in s.items ==> let e := s.items[id] :: same(e) || (old(e.State == StateLeased) && idSelected(leaseIDs, old(e.LeaseID)) && ((old(expiredAt(e, now)) && released(e, now)) || (!old(expiredAt(e, now)) && s.deliveredRetentionMaxAge > 0 && settled(e, StateDelivered, now, ""))))
+//@   ensures [C02:no_creation] forall id string :: id in s.items ==> old(id in s.items) && s.items[id] == old(s.items[id])
+//@   ensures [C04:other_leases_untouched] forall l string :: (l in s.leases ==> old(l in s.leases) && s.leases[l] == old(s.leases[l])) && (old(l in s.leases) && !(l in s.leases) ==> idSelected(leaseIDs, l))
+
+//@ func (*MemoryStore).NackBatch
+//@   requires s != nil
+//@   modifies s.leases, s.items, Envelope.State, Envelope.LeaseID, Envelope.LeaseUntil, Envelope.NextRunAt, Envelope.DeadReason, storeNow
+//@   loop 1 invariant [wf_J0] J0(s)
+//@   loop 1 invariant [wf_J1] J1(s)
+//@   loop 1 invariant [wf_J2] J2(s)
+//@   loop 1 invariant [wf_J3a] J3a(s)
+//@   loop 1 invariant [wf_J3b] J3b(s)
+//@   loop 1 invariant [wf_J4] J4(s)
+//@   loop 1 invariant [wf_J5] J5(s)
+//@   loop 1 invariant [wf_J6] J6(s)
+//@   loop 1 invariant [wf_J7] J7(s)
+//@   loop 1 invariant [accounted] rangeindex < len(leaseIDs) && res.Succeeded >= 0 && res.Succeeded + len(res.Conflicts) == rangeindex + 1
+//@   loop 1 invariant [no_creation] forall id string :: id in s.items ==> old(id in s.items) && s.items[id] == old(s.items[id])
+//@   loop 1 invariant [each_message] forall id string :: id in s.items ==> let e := s.items[id] :: same(e) || (old(e.State == StateLeased) && idSelected(leaseIDs, old(e.LeaseID)) && ((old(expiredAt(e, now)) && released(e, now)) || (!old(expiredAt(e, now)) && e.State == StateQueued && e.LeaseID == "" && e.LeaseUntil == 0 && e.NextRunAt == now + max(delay, 0) && e.DeadReason == "" && e.Attempt == old(e.Attempt) && immutableSame(e))))
+//@   loop 1 invariant [leases_only_shrink] forall l string :: l in s.leases ==> old(l in s.leases) && s.leases[l] == old(s.leases[l])
+//@   loop 1 invariant [dropped_leases_were_named] forall l string :: old(l in s.leases) && !(l in s.leases) ==> idSelected(leaseIDs, l)
+//@   loop 1 invariant [nothing_removed] forall id string :: old(id in s.items) ==> id in s.items
+//@   ensures [C04:nothing_removed] forall id string :: old(id in s.items) ==> id in s.items
+//@   ensures [C04:every_lease_id_accounted_for] result1 == nil && result0.Succeeded + len(result0.Conflicts) == len(leaseIDs)
+//@   ensures [C04:only_named_live_leases_settle_expired_ones_are_released] let now := storeNow :: forall id string :: id in s.items ==> let e := s.items[id] :: same(e) || (old(e.State == StateLeased) && idSelected(leaseIDs, old(e.LeaseID)) && ((old(expiredAt(e, now)) && released(e, now)) || (!old(expiredAt(e, now)) && e.State == StateQueued && e.LeaseID == "" && e.LeaseUntil == 0 && e.NextRunAt == now + max(delay, 0) && e.DeadReason == "" && e.Attempt == old(e.Attempt) && immutableSame(e))))
+//@   ensures [C02:no_creation] forall id string :: id in s.items ==> old(id in s.items) && s.items[id] == old(s.items[id])
+//@   ensures [C04:other_leases_untouched] forall l string :: (l in s.leases ==> old(l in s.leases) && s.leases[l] == old(s.leases[l])) && (old(l in s.leases) && !(l in s.leases) ==> idSelected(leaseIDs, l))
+
+//@ func (*MemoryStore).MarkDeadBatch
+//@   requires s != nil
+//@   modifies s.leases, s.items, Envelope.State, Envelope.LeaseID, Envelope.LeaseUntil, Envelope.NextRunAt, Envelope.DeadReason, storeNow
+//@   loop 1 invariant [wf_J0] J0(s)
+//@   loop 1 invariant [wf_J1] J1(s)
+//@   loop 1 invariant [wf_J2] J2(s)
+//@   loop 1 invariant [wf_J3a] J3a(s)
+//@   loop 1 invariant [wf_J3b] J3b(s)
+//@   loop 1 invariant [wf_J4] J4(s)
+//@   loop 1 invariant [wf_J5] J5(s)
+//@   loop 1 invariant [wf_J6] J6(s)
+//@   loop 1 invariant [wf_J7] J7(s)
+//@   loop 1 invariant [accounted] rangeindex < len(leaseIDs) && res.Succeeded >= 0 && res.Succeeded + len(res.Conflicts) == rangeindex + 1
+//@   loop 1 invariant [no_creation] forall id string :: id in s.items ==> old(id in s.items) && s.items[id] == old(s.items[id])
+//@   loop 1 invariant [each_message] forall id string :: id in s.items ==> let e := s.items[id] :: same(e) || (old(e.State == StateLeased) && idSelected(leaseIDs, old(e.LeaseID)) && ((old(expiredAt(e, now)) && released(e, now)) || (!old(expiredAt(e, now)) && settled(e, StateDead, now, reason))))
+//@   loop 1 invariant [leases_only_shrink] forall l string :: l in s.leases ==> old(l in s.leases) && s.leases[l] == old(s.leases[l])
+//@   loop 1 invariant [dropped_leases_were_named] forall l string :: old(l in s.leases) && !(l in s.leases) ==> idSelected(leaseIDs, l)
+//@   loop 1 invariant [nothing_removed] forall id string :: old(id in s.items) ==> id in s.items
+//@   ensures [C04:nothing_removed] forall id string :: old(id in s.items) ==> id in s.items
+//@   ensures [C04:every_lease_id_accounted_for] result1 == nil && result0.Succeeded + len(result0.Conflicts) == len(leaseIDs)
+//@   ensures [C04:only_named_live_leases_settle_expired_ones_are_released] let now := storeNow :: forall id string :: id in s.items ==> let e := s.items[id] :: same(e) || (old(e.State == StateLeased) && idSelected(leaseIDs, old(e.LeaseID)) && ((old(expiredAt(e, now)) && released(e, now)) || (!old(expiredAt(e, now)) && settled(e, StateDead, now, reason))))
+//@   ensures [C02:no_creation] forall id string :: id in s.items ==> old(id in s.items) && s.items[id] == old(s.items[id])
+//@   ensures [C04:other_leases_untouched] forall l string :: (l in s.leases ==> old(l in s.leases) && s.leases[l] == old(s.leases[l])) && (old(l in s.leases) && !(l in s.leases) ==> idSelected(leaseIDs, l))
